@@ -1,0 +1,23 @@
+//! Verification seam, compiled only with the `verif-hooks` feature.
+//!
+//! A deterministic simulator installs one process-wide hook; the crate calls
+//! it at stage boundaries (see `verif_point!`). Without an installed hook a
+//! point does nothing. With the feature off this module does not exist and
+//! every `verif_point!` expands to nothing.
+
+use std::sync::OnceLock;
+
+static HOOK: OnceLock<fn(&'static str)> = OnceLock::new();
+
+/// Installs the process-wide hook. Returns `false` if one was already installed.
+pub fn install(hook: fn(&'static str)) -> bool {
+    HOOK.set(hook).is_ok()
+}
+
+/// Called by the crate at a named stage boundary.
+#[inline]
+pub fn point(site: &'static str) {
+    if let Some(hook) = HOOK.get() {
+        hook(site);
+    }
+}
